@@ -36,6 +36,19 @@ def oracle(case, line):
     mb = re.search(r" B (\d+)", tail)
     if mb and int(mb.group(1)) != h:
         bad.append(("handle-count", "blocking handle count %s differs from pending nodes %d (mapping released twice or leaked)" % (mb.group(1), h)))
+    # state clauses at the end of the case (implementation's own state), sound by the proved invariants
+    # (coq/C18/ProofsD.v perf_ok, ProofsE.v): once the main thread has finished its op list
+    mq2 = re.search(r" M (\d+)\.(\d+)", tail)
+    cqn, dnn = int(m.group(5)), int(m.group(6))
+    main_done = fin[0] == "1"
+    disk_idle = fin[1] == "1" or (len(toks) >= 12 and all(
+        t.endswith(":-") or t.split(":")[0] == "0" or t.split(":")[1] in ("pc_store", "pc_lock") for t in toks[-12:]))
+    if mq2 and main_done and disk_idle:
+        mqn, dqn = int(mq2.group(1)), int(mq2.group(2))
+        if dnn > 0 and mqn == 0:
+            bad.append(("stuck-result", "%d result(s) sit in the done map with no work() callback queued or running: the piece(s) will never be answered" % dnn))
+        if cqn > 0 and dqn == 0:
+            bad.append(("lost-disk-wakeup", "%d piece(s) sit in the check queue with no perform() callback queued or running on the disk thread" % cqn))
     # deadlock / lost wake-up: the schedule ends with a long round-robin tail; if a thread is unfinished and
     # nothing was enabled during the last 30 schedule steps, nobody can ever step
     if fin != "11" and len(toks) >= 30 and all(t.endswith(":-") for t in toks[-30:]):
